@@ -202,6 +202,41 @@ class Run:
             self.store(('P', dst[1], dst[2] + j), c, e.get('l'))
         return len(out) - 1
 
+    def cstring(self, p, line):
+        """the characters of the terminated string at pointer p (every element read is bounds-checked)"""
+        if not (isinstance(p, tuple) and p[0] == 'P'):
+            raise Unsupported('string function on a non-pointer')
+        out, j = [], 0
+        while True:
+            c = self.load(('P', p[1], p[2] + j), line)
+            if not isinstance(c, int):
+                raise Unsupported('string function on abstract characters')
+            if c == 0:
+                return out
+            out.append(c)
+            j += 1
+            self.tick()
+
+    def libc_str(self, e, fn):
+        a = [self.val(x) for x in e.get('a', [])]
+        hay = self.cstring(a[0], e.get('l'))
+        if fn == 'strlen':
+            return len(hay)
+        if fn == 'strstr':
+            nee = self.cstring(a[1], e.get('l'))
+            for k in range(0, len(hay) - len(nee) + 1):
+                if hay[k:k + len(nee)] == nee:
+                    return ('P', a[0][1], a[0][2] + k)
+            return 0
+        c = a[1] & 255 if isinstance(a[1], int) else None
+        if c is None:
+            raise Unsupported('`%s`' % pe(e))
+        hay8 = [x & 255 for x in hay] + [0]
+        ks = [k for k, x in enumerate(hay8) if x == c]
+        if not ks:
+            return 0
+        return ('P', a[0][1], a[0][2] + (ks[0] if fn == 'strchr' else ks[-1]))
+
     def libc_strtoul(self, e):
         p = self.val(e['a'][0])
         base = self.val(e['a'][2])
@@ -523,6 +558,8 @@ class Run:
             for j in range(n_):
                 self.store(('P', dst[1], dst[2] + j), vals[j], e.get('l'))
             return dst
+        if fn in ('strlen', 'strstr', 'strchr', 'strrchr') and not e.get('clsp'):
+            return self.libc_str(e, fn)
         if fn in ('snprintf', 'sprintf') and not e.get('clsp'):
             return self.libc_printf(e, fn)
         if fn in ('strtoul', 'strtol') and not e.get('clsp') and len(e.get('a', [])) == 3:
